@@ -1,6 +1,6 @@
 SPECIFICATION GSpec
 CONSTANTS
-  Layouts <- GoodCfg
+  Layouts <- GoodIm
   Impl <- NoDevs
   Depth = 5
   GenModes <- QuickModes
